@@ -3,6 +3,7 @@
 #include "hcommon.hpp"
 #include <gemmi/symmetry.hpp>
 #include <cmath>
+#include <algorithm>
 using namespace gemmi;
 using hv::words; using hv::to_ll;
 
@@ -178,6 +179,136 @@ static std::string handle(const std::string& cmd, const std::string& args) {
           }
         }
     return std::to_string(nbad) + (nbad ? " first " + bad : "");
+  }
+
+  // ---- property oracles evaluated on the implementation (used to search for a failing input) ----
+  if (cmd == "o_rt") {  // print -> parse round trip in every style the operator can be printed in
+    Op op = read_op(w, 0);
+    std::string bad;
+    for (char style : {'x', 'X', 'a', 'A', 'h', 'H'}) {
+      Op o = op;
+      if ((style | 0x20) == 'h') {
+        if (op.tran != Op::Tran{0, 0, 0}) continue;
+        o = op.as_hkl();
+      } else {
+        o.notation = 'x';
+      }
+      std::string t = o.triplet(style);
+      Op back = parse_triplet(t);
+      if (back != o || ((style | 0x20) == 'h') != back.is_hkl()) { bad = std::string(1, style) + ":" + t; break; }
+    }
+    return bad.empty() ? "1" : "0 " + hv::hex_encode(bad);
+  }
+  if (cmd == "o_inv") {  // a * a^-1 == identity when the inverse is exactly representable
+    Op a = read_op(w, 0);
+    Op inv = a.inverse();
+    // exactness: det divides every cofactor*DEN^2 and the translation
+    Op chk = a.combine(inv), chk2 = inv.combine(a);
+    bool exact = true;
+    {
+      // verify with 64-bit rationals that inv is the true inverse
+      for (int i = 0; i < 3 && exact; ++i)
+        for (int j = 0; j < 3; ++j) {
+          long long sum = 0;
+          for (int k = 0; k < 3; ++k) sum += (long long) a.rot[i][k] * inv.rot[k][j];
+          if (sum != (i == j ? 24LL * 24 : 0)) exact = false;
+        }
+      for (int i = 0; i < 3 && exact; ++i) {
+        long long sum = (long long) a.tran[i] * 24;
+        for (int k = 0; k < 3; ++k) sum += (long long) a.rot[i][k] * inv.tran[k];
+        if (sum != 0) exact = false;
+      }
+    }
+    if (!exact) return "skip";
+    return (chk == Op::identity() && chk2 == Op::identity()) ? "1" : "0";
+  }
+  if (cmd == "o_comp") {  // (a.combine(b))(x) == a(b(x)) on a rational point when the product is representable
+    Op a = read_op(w, 0), b = read_op(w, 13);
+    long long x[3] = {to_ll(w.at(26)), to_ll(w.at(27)), to_ll(w.at(28))};
+    long long d = to_ll(w.at(29));
+    // representable: every raw entry divisible by DEN
+    for (int i = 0; i < 3; ++i) {
+      long long t = (long long) a.tran[i] * 24;
+      for (int j = 0; j < 3; ++j) {
+        long long r = 0;
+        for (int k = 0; k < 3; ++k) r += (long long) a.rot[i][k] * b.rot[k][j];
+        if (r % 24 != 0) return "skip";
+        t += (long long) a.rot[i][j] * b.tran[j];
+      }
+      if (t % 24 != 0) return "skip";
+    }
+    Op c = a.combine(b);
+    // exact integer arithmetic scaled by 24*24*d
+    for (int i = 0; i < 3; ++i) {
+      long long bx[3];
+      for (int k = 0; k < 3; ++k)
+        bx[k] = b.rot[k][0] * x[0] + b.rot[k][1] * x[1] + b.rot[k][2] * x[2] + b.tran[k] * d;  // *24*d
+      long long lhs = (c.rot[i][0] * x[0] + c.rot[i][1] * x[1] + c.rot[i][2] * x[2] + c.tran[i] * d) * 24;
+      long long rhs = a.rot[i][0] * bx[0] + a.rot[i][1] * bx[1] + a.rot[i][2] * bx[2] + a.tran[i] * d * 24;
+      if (lhs != rhs) return "0";
+    }
+    // and the library's floating-point application agrees
+    auto p = c.apply_to_xyz({{double(x[0]) / d, double(x[1]) / d, double(x[2]) / d}});
+    auto q = a.apply_to_xyz(b.apply_to_xyz({{double(x[0]) / d, double(x[1]) / d, double(x[2]) / d}}));
+    for (int i = 0; i < 3; ++i)
+      if (std::fabs(p[i] - q[i]) > 1e-9 * (1 + std::fabs(p[i]))) return "0";
+    return "1";
+  }
+  if (cmd == "o_dual") {  // (h.R).x + h.t == h.(Rx+t), phase shift == -2 pi h.t/24
+    Op a = read_op(w, 0);
+    Op::Miller h = {{(int) to_ll(w.at(13)), (int) to_ll(w.at(14)), (int) to_ll(w.at(15))}};
+    long long x[3] = {to_ll(w.at(16)), to_ll(w.at(17)), to_ll(w.at(18))};
+    Op::Miller hr = a.apply_to_hkl_without_division(h);
+    long long lhs = 0, rhs = 0;
+    for (int i = 0; i < 3; ++i) {
+      lhs += (long long) hr[i] * x[i] + (long long) h[i] * a.tran[i];
+      rhs += (long long) h[i] * (a.rot[i][0] * x[0] + a.rot[i][1] * x[1] + a.rot[i][2] * x[2] + a.tran[i]);
+    }
+    const double mult = -2 * 3.1415926535897932384626433832795 / Op::DEN;
+    long long ht = (long long) h[0] * a.tran[0] + (long long) h[1] * a.tran[1] + (long long) h[2] * a.tran[2];
+    bool ps_ok = std::fabs(a.phase_shift(h) - mult * ht) <= 1e-9 * (1 + std::fabs(mult * ht));
+    return (lhs == rhs && ps_ok) ? "1" : "0";
+  }
+  if (cmd == "o_group") {  // closure, inverses, identity, lookups, triplets of one table row
+    long long row = to_ll(w.at(0));
+    const SpaceGroup& sg = spacegroup_tables::main[row];
+    GroupOps g = sg.operations();
+    std::vector<Op> ops = g.all_ops_sorted();
+    auto has = [&](const Op& o) { return std::binary_search(ops.begin(), ops.end(), o); };
+    if (g.sym_ops.empty() || g.sym_ops[0] != Op::identity()) return "bad identity-first";
+    for (size_t i = 1; i < ops.size(); ++i) if (ops[i] == ops[i-1]) return "bad duplicate";
+    for (const Op& a : ops) {
+      bool inv = false;
+      for (const Op& b : ops) {
+        Op c = a * b;
+        if (!has(c)) return "bad closure " + a.triplet() + " * " + b.triplet();
+        if (c == Op::identity()) inv = true;
+      }
+      if (!inv) return "bad inverse " + a.triplet();
+      if (parse_triplet(a.triplet()) != a) return "bad triplet " + a.triplet();
+    }
+    const SpaceGroup* first_x = nullptr; const SpaceGroup* first_c = nullptr;
+    for (const SpaceGroup& s2 : spacegroup_tables::main) {
+      if (!first_x && s2.xhm() == sg.xhm()) first_x = &s2;
+      if (!first_c && sg.ccp4 != 0 && s2.ccp4 == sg.ccp4) first_c = &s2;
+    }
+    if (find_spacegroup_by_name(sg.xhm()) != first_x) return "bad lookup-xhm";
+    if (sg.ccp4 != 0 && find_spacegroup_by_number(sg.ccp4) != first_c) return "bad lookup-ccp4";
+    const SpaceGroup* by_ops = find_spacegroup_by_ops(g);
+    if (by_ops == nullptr || !by_ops->operations().is_same_as(g) || by_ops > &sg) return "bad lookup-ops";
+    for (const SpaceGroup* s2 = spacegroup_tables::main; s2 < by_ops; ++s2)
+      if (s2->operations().is_same_as(g)) return "bad lookup-ops-not-first";
+    // reference setting transformed by the tabulated change of basis
+    GroupOps ref = get_spacegroup_reference_setting(sg.number).operations();
+    ref.change_basis_forward(sg.basisop());
+    if (!ref.is_same_as(g)) return "bad reference-transform";
+    // classification from the operations
+    bool all_pos = true;
+    for (const Op& o : g.sym_ops) if (o.det_rot() <= 0) all_pos = false;
+    if (all_pos != sg.is_sohncke()) return "bad sohncke";
+    if (g.is_centrosymmetric() != sg.is_centrosymmetric()) return "bad centrosymmetric";
+    if (g.find_centering() != sg.centring_type()) return "bad centring";
+    return "ok";
   }
   return "UNKNOWN";
 }
